@@ -117,12 +117,21 @@ def _view(m, op):
     return gn.view_of(m, op["targets"])
 
 
-def apply_ops(m, ops, stateful_inputs=True):
+def apply_ops(m, ops, stateful_inputs=True, mixed=None):
+    """mixed=0/1: stimuli alternate between stimulate() and data_stimulate() (starting with the stateful / the
+    data route); clamps all take the stateful route (mixed=0) or the data route (mixed=1)."""
     import jax.numpy as jnp
 
     data_stimuli = None
     data_clamps = None
+    n_stim = 0
+    clamps_stateful = stateful_inputs
+    if mixed is not None:
+        clamps_stateful = mixed == 0
     for op in ops:
+        if mixed is not None and op["op"] == "stimulate":
+            stateful_inputs = (n_stim + mixed) % 2 == 0
+            n_stim += 1
         if op["op"] == "record":
             _view(m, op).record(op["state"], verbose=False)
         elif op["op"] == "stimulate":
@@ -134,7 +143,7 @@ def apply_ops(m, ops, stateful_inputs=True):
                 data_stimuli = _view(m, op).data_stimulate(arr, data_stimuli)
         elif op["op"] == "clamp":
             arr = jnp.asarray(np.asarray(op["samples"], float))
-            if stateful_inputs:
+            if clamps_stateful:
                 _view(m, op).clamp(op["state"], arr, verbose=False)
             else:
                 data_clamps = _view(m, op).data_clamp(op["state"], arr, data_clamps)
@@ -302,6 +311,27 @@ def judge(spec, tier="quick"):
         if got3.shape != got.shape or not np.allclose(got3, got, rtol=0, atol=1e-10 * max(1.0, float(np.max(np.abs(got))))):
             d = float(np.max(np.abs(got3 - got))) if got3.shape == got.shape else "shape"
             out.violate("data-twin", f"data_stimulate/data_clamp run differs from stimulate/clamp run by {d}; ops={[(o['op'], o.get('state'), o['targets']) for o in ops]}")
+            return out
+    # (5) mixed twins: some stimuli through stimulate(), the others through data_stimulate(), in one integrate call
+    n_stim = sum(o["op"] == "stimulate" for o in ops)
+    if n_stim >= 2:
+        clamps_ok = not multi_clamp_same_state and len({o["state"] for o in ops if o["op"] == "clamp"}) <= 1
+        for mixed in ((0, 1) if clamps_ok else (0,)):
+            m4 = build()
+            res, err = core.call(apply_ops, m4, ops, True, mixed)
+            if err:
+                out.violate("data-twin-raises", f"mixed stimulate/data_stimulate sequence raised {err.short()}", etype=err.etype, frame=err.frame)
+                return out
+            ds, dc = res
+            got4, err = core.call(lambda: np.asarray(jx.integrate(m4, data_stimuli=ds, data_clamps=dc, **kw), float))
+            if err:
+                out.violate("data-twin-raises", f"integrate with stimuli from both stimulate() and data_stimulate() raised {err.short()}", etype=err.etype, frame=err.frame)
+                return out
+            out.evals += 1
+            if got4.shape != got.shape or not np.allclose(got4, got, rtol=0, atol=1e-10 * max(1.0, float(np.max(np.abs(got))))):
+                d = float(np.max(np.abs(got4 - got))) if got4.shape == got.shape else "shape"
+                out.violate("data-twin-mixed", f"run with stimuli alternating between stimulate() and data_stimulate() (first one {'stateful' if mixed == 0 else 'data'}) differs from the all-stimulate run by {d}; ops={[(o['op'], o.get('state'), o['targets']) for o in ops]}")
+                return out
     return out
 
 
